@@ -122,3 +122,172 @@ def h_delete_app(r0: int, r1: int, r2: int, database: int) -> bool:
     left = [ms.model_name for ms in app.model_sigs]
     expect = [MODELS[i] for i in range(3) if routes[i] != database]
     return hx.verdict(left == expect, True)
+
+
+# ------------------------------------------------------------------ what is created / recorded where
+import django.db as _ddb
+from django.apps.registry import Apps as _Apps
+
+import django_evolution.compat.db as cdb
+import django_evolution.signature as sigmod
+from django_evolution.db.state import DatabaseState
+
+_REG = _Apps()
+
+
+def _class(i):
+    meta = type('Meta', (), {'app_label': 'vapp16', 'apps': _REG, 'db_table': 't%d' % i})
+    return type(str(MODELS[i]), (models.Model,),
+                {'__module__': 'vapp16.models', 'a': models.CharField(max_length=10), 'Meta': meta})
+
+
+CLASSES = [_class(i) for i in range(3)]
+
+
+class _Router(object):
+    """A database router driven by a routing table: 0 / 1 = the model lives on that alias only,
+    2 = no opinion (Django then allows it everywhere)."""
+
+    def __init__(self, routes):
+        self.routes = routes
+
+    def allow_migrate(self, db, app_label, model_name=None, **hints):
+        r = self.routes[[n.lower() for n in MODELS].index(model_name)]
+        if r == 2:
+            return None
+        return ALIASES[r] == db
+
+
+class _Env(object):
+    """Real django.db.router with the table-driven router; app lookup helpers return the three
+    model classes above (no installed app is needed)."""
+
+    def __init__(self, routes):
+        self.routes = routes
+
+    def __enter__(self):
+        self.saved = (cdb.get_models, cdb.get_app_label, sigmod.get_models, sigmod.get_app_label,
+                      sigmod.get_legacy_app_label, sigmod.get_app_upgrade_info,
+                      _ddb.router.__dict__.get('routers'))
+        cdb.get_models = sigmod.get_models = lambda app, include_auto_created=False: list(CLASSES)
+        cdb.get_app_label = sigmod.get_app_label = lambda app: 'vapp16'
+        sigmod.get_legacy_app_label = lambda app: 'vapp16'
+        sigmod.get_app_upgrade_info = lambda app, **kw: {'upgrade_method': None}
+        _ddb.router.__dict__['routers'] = [_Router(self.routes)]
+        return self
+
+    def __exit__(self, *a):
+        (cdb.get_models, cdb.get_app_label, sigmod.get_models, sigmod.get_app_label,
+         sigmod.get_legacy_app_label, sigmod.get_app_upgrade_info, routers) = self.saved
+        if routers is None:
+            _ddb.router.__dict__.pop('routers', None)
+        else:
+            _ddb.router.__dict__['routers'] = routers
+        return False
+
+
+def _allowed(routes, i, database):
+    return routes[i] == 2 or routes[i] == database
+
+
+def h_installable(r0: int, r1: int, r2: int, has0: bool, has1: bool, has2: bool,
+                  database: int) -> bool:
+    """db_get_installable_models_for_app (what EvolveAppTask creates tables for): exactly the
+    models the router allows on the evolved database whose table is not there yet.
+
+    pre: 0 <= r0 <= 2 and 0 <= r1 <= 2 and 0 <= r2 <= 2 and 0 <= database <= 1
+    pre: not hx.excluded(r0, r1, r2, has0, has1, has2, database)
+    post: _
+    """
+    routes = [r0, r1, r2]
+    has = [has0, has1, has2]
+    state = DatabaseState(ALIASES[database], scan=False)
+    for i in range(3):
+        if has[i]:
+            state.add_table('t%d' % i)
+    with _Env(routes):
+        got = cdb.db_get_installable_models_for_app(None, state)
+    expect = [CLASSES[i] for i in range(3) if not has[i] and _allowed(routes, i, database)]
+    ok = len(got) == len(expect)
+    if ok:
+        for a, b in zip(got, expect):
+            ok = ok and a is b
+    return hx.verdict(ok, True)
+
+
+def h_from_app(r0: int, r1: int, r2: int, database: int) -> bool:
+    """AppSignature.from_app(app, database) (the signature recorded for a database) lists exactly
+    the models the router allows on that database.
+
+    pre: 0 <= r0 <= 2 and 0 <= r1 <= 2 and 0 <= r2 <= 2 and 0 <= database <= 1
+    pre: not hx.excluded(r0, r1, r2, database)
+    post: _
+    """
+    routes = [r0, r1, r2]
+    with _Env(routes):
+        app_sig = AppSignature.from_app(None, ALIASES[database])
+    got = [ms.model_name for ms in app_sig.model_sigs]
+    expect = [MODELS[i] for i in range(3) if _allowed(routes, i, database)]
+    return hx.verdict(got == expect and app_sig.app_id == 'vapp16', True)
+
+
+# ------------------------------------------------------------------ the evolver's baseline per database
+from django.db import connections
+
+from django_evolution.models import Evolution, Version
+
+
+def _reset_db(alias, with_baseline):
+    conn = connections[alias]
+    existing = conn.introspection.table_names()
+    with conn.schema_editor() as se:
+        for m in (Evolution, Version):
+            if m._meta.db_table in existing:
+                se.delete_model(m)
+        if with_baseline:
+            se.create_model(Version)
+            se.create_model(Evolution)
+    if with_baseline:
+        proj = ProjectSignature()
+        proj.add_app_sig(AppSignature(app_id='marker_%s' % alias))
+        Version(signature=proj).save(using=alias)
+
+
+def _snapshot(alias):
+    conn = connections[alias]
+    tables = sorted(conn.introspection.table_names())
+    rows = None
+    if Version._meta.db_table in tables:
+        rows = [(v.pk, [a.app_id for a in v.signature.app_sigs])
+                for v in Version.objects.using(alias).order_by('pk')]
+    return tables, rows
+
+
+def h_evolver_baseline(database: int, has_d: bool, has_o: bool) -> bool:
+    """Evolver(database_name=D) takes its baseline (stored signature) from D and, when D has none,
+    installs one on D only; the other database is not read for it and not modified.
+
+    pre: 0 <= database <= 1
+    pre: not hx.excluded(database, has_d, has_o)
+    post: _
+    """
+    database = hx.realize(database)
+    has = [True if hx.realize(has_d) else False, True if hx.realize(has_o) else False]
+    with hx.NoTracing():
+        from django_evolution.evolve import Evolver
+        for i in range(2):
+            _reset_db(ALIASES[i], has[i])
+        other = 1 - database
+        before_other = _snapshot(ALIASES[other])
+        ev = Evolver(database_name=ALIASES[database])
+        apps_in_baseline = [a.app_id for a in ev.project_sig.app_sigs]
+        if has[database]:
+            ok = apps_in_baseline == ['marker_%s' % ALIASES[database]] and not ev.installed_new_database
+        else:
+            ok = apps_in_baseline == ['django_evolution'] and ev.installed_new_database
+            tables, rows = _snapshot(ALIASES[database])
+            ok = ok and rows is not None and len(rows) == 1 and rows[0][1] == ['django_evolution']
+        ok = ok and _snapshot(ALIASES[other]) == before_other
+        for i in range(2):
+            _reset_db(ALIASES[i], False)
+    return hx.verdict(ok, True)
